@@ -62,6 +62,9 @@ type Extern struct {
 	Uses map[string][]string `json:"uses"`
 	// "pkgpath.Name" of an extern type -> Lean test (with %s for the value) that stands for `== nil`
 	NilTest map[string]string `json:"nilTest"`
+	// "pkgpath.Concrete>pkgpath.Interface" -> Lean function turning the stand-in of the concrete extern type into the
+	// stand-in of the extern interface type
+	Coerce map[string]string `json:"coerce"`
 }
 
 type ExternFn struct {
